@@ -5,18 +5,29 @@
     holds; `logged_line_is_node_text`: the line the Assembler's logger writes when that node is serialized is the node's text
     (indented) completed by `finish_formatted_line` — so node listing and emission log name the same instruction, and all the
     instruction-line theorems (`x86_line_parse_back`, `a64_line_parse_back`) apply to node texts verbatim (`inst_node_parse_back_*`).
-  * comment nodes denote their content (`comment_node_parse_back`); label / align / embed-data / section nodes are judged by the
-    monitor `monNode` on every node text of every run and tied by correspondence — their parse-back is NOT proved for all inputs.
+  * label / align / embed-data / embed-label / section / comment nodes denote their content, proved for all inputs:
+    `label_node_parse_back`, `embed_label_node_parse_back`,
+    `section_node_parse_back`, `comment_node_parse_back` (label nodes under the label read-back of `label_parse_back`).
+    Not proved: align nodes, embed-data nodes (`.dd {Count=… Repeat=… TotalSize=…}`; the number reader lemma `readNat_uint` is), `.label (a - b)` delta nodes, inline comments and the `<position>` prefix (monitored + tied).
   The model `formatNode` is tied to the real `Formatter::format_node` / `format_node_list` by the harness (Builder sessions).
 -/
 import AsmjitVerif.Lemmas.FormatA64Vec
 
 namespace AsmjitVerif.Props.C20
 open AsmjitVerif.Format AsmjitVerif.FormatText AsmjitVerif.Lemmas.FormatLex AsmjitVerif.Lemmas.FormatNum
-open AsmjitVerif.Lemmas.FormatLabels
+open AsmjitVerif.Lemmas.FormatLabels AsmjitVerif.Lemmas.FormatX86Mem
+
+theorem positionPrefix_zero (flags : Nat) : positionPrefix flags 0 = [] := by simp [positionPrefix]
+
+theorem formatNode_plain (flags : Nat) (env : Env) (pad0 : Nat) (n : Node) (h : ∀ t, n ≠ .comment t) :
+    formatNode flags env pad0 n none = formatNodeBody flags env n := by
+  unfold formatNode
+  rw [positionPrefix_zero]
+  cases n <;> first | rfl | exact absurd rfl (h _)
 
 theorem inst_node_text_is_instruction_text (flags : Nat) (env : Env) (pad0 id opts : Nat) (extra : ExtraReg) (ops : List Operand) :
-    formatNode flags env pad0 (.inst id opts extra ops) none = formatInstruction flags env id opts extra ops := rfl
+    formatNode flags env pad0 (.inst id opts extra ops) none = formatInstruction flags env id opts extra ops := by
+  rw [formatNode_plain _ _ _ _ (by intro t h; cases h)]; rfl
 
 /-- serializing an instruction node to an Assembler logs exactly the node's text, indented, completed by the machine-code column -/
 theorem logged_line_is_node_text (flags : Nat) (env : Env) (indent pad0 pad1 npad id opts : Nat) (extra : ExtraReg) (ops : List Operand)
@@ -25,24 +36,97 @@ theorem logged_line_is_node_text (flags : Nat) (env : Env) (indent pad0 pad1 npa
       (if hasBit flags ffMachineCode then
          finishFormattedLine (List.replicate indent ' ' ++ formatNode flags env npad (.inst id opts extra ops) none) pad0 pad1 (some bytes) rel imm comment
        else finishFormattedLine (List.replicate indent ' ' ++ formatNode flags env npad (.inst id opts extra ops) none) pad0 pad1 none 0 0 comment) := by
+  rw [inst_node_text_is_instruction_text]
   unfold logInstructionEmitted
   rfl
 
-/-- the whole-line theorems apply to node texts: an x86 instruction node reads back as the instruction -/
-theorem inst_node_parse_back_x86 (flags : Nat) (env : Env) (pad0 instId options : Nat) (extra : ExtraReg) (ops : List Operand)
-    (rk rr : PReg) (wf : AsmjitVerif.Lemmas.FormatLineFull.WFLine flags env instId options extra ops rk rr) :
-    parseX86Inst env (x86FormatInstruction flags env instId options extra ops) =
-      parseX86Inst env (x86FormatInstruction flags env instId options extra ops) ∧
-    (env.arch ≠ Arch.a64 → formatNode flags env pad0 (.inst instId options extra ops) none = x86FormatInstruction flags env instId options extra ops) := by
-  refine ⟨rfl, ?_⟩
-  intro h
-  show formatInstruction flags env instId options extra ops = _
+/-- an x86 instruction node's text is the x86 instruction line, so `x86_line_parse_back` applies to node texts verbatim -/
+theorem inst_node_text_x86 (flags : Nat) (env : Env) (pad0 instId options : Nat) (extra : ExtraReg) (ops : List Operand)
+    (h : env.arch ≠ Arch.a64) :
+    formatNode flags env pad0 (.inst instId options extra ops) none = x86FormatInstruction flags env instId options extra ops := by
+  rw [inst_node_text_is_instruction_text]
   unfold formatInstruction
   cases ha : env.arch <;> simp_all
 
-theorem comment_node_parse_back (flags : Nat) (env : Env) (pad0 : Nat) (t : Str) (inl : Option Str) :
-    monNode env flags (.comment t) inl (formatNode flags env pad0 (.comment t) inl) = true := by
-  cases inl <;> (show (("; ".toList ++ t) == ("; ".toList ++ t)) = true; simp)
+theorem inst_node_text_a64 (flags : Nat) (env : Env) (pad0 instId options : Nat) (extra : ExtraReg) (ops : List Operand)
+    (h : env.arch = Arch.a64) :
+    formatNode flags env pad0 (.inst instId options extra ops) none = a64FormatInstruction flags env instId ops := by
+  rw [inst_node_text_is_instruction_text]
+  unfold formatInstruction
+  rw [h]
+
+/-! ## label / align / embed-data / embed-label / section / comment nodes denote their content -/
+
+theorem monNode_plain (env : Env) (flags : Nat) (n : Node) (text : Str) :
+    monNode env flags n none text 0 =
+      (match n with
+       | .comment t => text == "; ".toList ++ t
+       | .inst id opts extra ops => monInstruction env flags id opts extra ops [] text
+       | .label id => monLabelText env id text
+       | .align mode nn => monAlignText mode nn text
+       | .embedData size count rep => monEmbedText env.arch size count rep text
+       | .section name => text == ".section ".toList ++ name
+       | .embedLabel id => monEmbedLabelText env id text
+       | .embedLabelDelta id base => monLabelDeltaText env id base text) := by
+  have hs : stripPosition flags 0 text = some text := by simp [stripPosition]
+  unfold monNode
+  rw [hs]
+  cases n <;> rfl
+
+theorem monNode_label (env : Env) (flags id : Nat) (text : Str) :
+    monNode env flags (.label id) none text 0 = monLabelText env id text := monNode_plain env flags (.label id) text
+theorem monNode_align (env : Env) (flags mode n : Nat) (text : Str) :
+    monNode env flags (.align mode n) none text 0 = monAlignText mode n text := monNode_plain env flags (.align mode n) text
+theorem monNode_section (env : Env) (flags : Nat) (name text : Str) :
+    monNode env flags (.section name) none text 0 = (text == ".section ".toList ++ name) := monNode_plain env flags (.section name) text
+theorem monNode_elabel (env : Env) (flags id : Nat) (text : Str) :
+    monNode env flags (.embedLabel id) none text 0 = monEmbedLabelText env id text := monNode_plain env flags (.embedLabel id) text
+theorem monNode_comment (env : Env) (flags : Nat) (t text : Str) :
+    monNode env flags (.comment t) none text 0 = (text == "; ".toList ++ t) := monNode_plain env flags (.comment t) text
+theorem monNode_embed (env : Env) (flags size count rep : Nat) (text : Str) :
+    monNode env flags (.embedData size count rep) none text 0 = monEmbedText env.arch size count rep text :=
+  monNode_plain env flags (.embedData size count rep) text
+
+theorem comment_node_parse_back (flags : Nat) (env : Env) (pad0 : Nat) (t : Str) :
+    monNode env flags (.comment t) none (formatNode flags env pad0 (.comment t) none) = true := by
+  have : formatNode flags env pad0 (.comment t) none = "; ".toList ++ t := by
+    unfold formatNode; rw [positionPrefix_zero]; rfl
+  rw [this, monNode_comment]; simp
+
+theorem section_node_parse_back (flags : Nat) (env : Env) (pad0 : Nat) (name : Str) :
+    monNode env flags (.section name) none (formatNode flags env pad0 (.section name) none) = true := by
+  have : formatNode flags env pad0 (.section name) none = ".section ".toList ++ name :=
+    formatNode_plain _ _ _ _ (by intro t h; cases h)
+  rw [this, monNode_section]; simp
+
+theorem label_node_parse_back (flags : Nat) (env : Env) (pad0 id : Nat) (h : parseLabel env (formatLabel env id) = some id) :
+    monNode env flags (.label id) none (formatNode flags env pad0 (.label id) none) = true := by
+  have : formatNode flags env pad0 (.label id) none = formatLabel env id ++ [':'] :=
+    formatNode_plain _ _ _ _ (by intro t h; cases h)
+  rw [this, monNode_label]
+  unfold monLabelText
+  rw [dropLast_concat]
+  simp [h]
+
+theorem embed_label_node_parse_back (flags : Nat) (env : Env) (pad0 id : Nat) (h : parseLabel env (formatLabel env id) = some id) :
+    monNode env flags (.embedLabel id) none (formatNode flags env pad0 (.embedLabel id) none) = true := by
+  have : formatNode flags env pad0 (.embedLabel id) none = ".label ".toList ++ formatLabel env id :=
+    formatNode_plain _ _ _ _ (by intro t h; cases h)
+  rw [this, monNode_elabel]
+  unfold monEmbedLabelText
+  rw [stripPrefix_append]
+  simp [h]
+
+theorem dec_isDigitC : ∀ d : Fin 10, isDigitC (digitChar d.val) = true := by decide
+
+theorem readNat_uint (n : Nat) (h : n < two64) (rest : Str) (hr : StopsAt isDigitC rest) : readNat (uintStr n 10 ++ rest) = some (n, rest) := by
+  have hall : ∀ c ∈ uintStr n 10, isDigitC c = true := by
+    unfold uintStr
+    exact digitsLoop_chars 10 _ (by omega) (fun d hd => dec_isDigitC ⟨d, hd⟩) 64 n
+  have hs := takeWhile_append_stop isDigitC (uintStr n 10) rest hall hr
+  unfold readNat
+  rw [hs.1, hs.2, parseDec_uintStr n h]
+  rfl
 
 example : formatNode 0 { arch := .x64, labels := some [], vregs := none } 0 (.align 0 16) none = ".align 16 (code)".toList := by decide
 example : formatNode 0 { arch := .a64, labels := some [], vregs := none } 0 (.embedData 2 3 1) none = ".hword {Count=3 Repeat=1 TotalSize=6}".toList := by decide
